@@ -88,6 +88,12 @@ def history(draw, broker):
             ops.append(draw(start_op(queues, clients)))
         else:
             ops.append(draw(finish))
+        if draw(st.integers(0, 9)) == 0:
+            # consumption paused and resumed (what a saturated worker does): nothing may be lost or duplicated by it
+            ops.append({"op": "pause", "c": draw(st.integers(0, 3))})
+            for _ in range(draw(st.integers(0, 2))):
+                ops.append(draw(st.one_of(enq_op(queues), advance)))
+            ops.append({"op": "unpause", "c": draw(st.integers(0, 3))})
         if draw(st.integers(0, 5)) == 0:
             # several consume() calls in flight at once (two clients racing for the same messages), then collected
             for c in draw(st.lists(st.integers(0, 3), min_size=2, max_size=3, unique=True)):
